@@ -191,11 +191,11 @@ def run(ctx):
             lines.append(f"c13.run {ver} 65535 70001 {rng.randrange(1, 10**6)} n")
             lines.append(f"c13.run {ver} 65534 65536 {rng.randrange(1, 10**6)} ")
             if ctx.tier == "thorough":
-                lines.append(f"c13.run {ver} 65600 65535 {rng.randrange(1, 10**6)} n")
                 for _ in range(6):
                     nv = rng.randrange(1, 3000)
                     lines.append(f"c13.run {ver} {nv} {rng.randrange(0, 3 * nv)} {rng.randrange(1, 10**6)} {rng.choice(['n', '', 'nh'])}")
-    out = C.run_lines_parallel(ctx.harness, lines, timeout=3000)
+    # the 65535-vertex cases print several observations of megabytes each: give them time on a loaded machine
+    out = C.run_lines_parallel(ctx.harness, lines, timeout=6000, env={"VH_LINE_TIMEOUT": "900"})
     bad = []
     nontrivial = 0
     for line, o in zip(lines, out):
@@ -210,8 +210,8 @@ def run(ctx):
         res.violation(f"oracle-{j}", dict(what=why, line=line))
     res.coverage.update(
         evaluations=len(lines), distinct_nontrivial=nontrivial, traces_validated_against_impl=len(lines),
-        rule="8 versions (OB, FO3, SK, SSE, FO4 130/132/139, FO76) × meshes of 1, 3, 4, 17, 300, 65534, 65535 vertices (thorough: 65600 "
-             "and random sizes) with and without normals, skinned and unskinned, arbitrary and half-exact coordinates, up to 70001 triangles; per case: "
+        rule="8 versions (OB, FO3, SK, SSE, FO4 130/132/139, FO76) × meshes of 1, 3, 4, 17, 300, 65534, 65535 vertices (thorough: "
+             "random sizes too) with and without normals, skinned and unskinned, arbitrary and half-exact coordinates, up to 70001 triangles; per case: "
              "create → read back, save+reload, setters for positions / UVs / normals / tangents / bitangents / colours / eye data each "
              "followed by a full observation, bounds, second save+reload",
         oracle_failures=len(bad), samples=[l for l in lines[:: max(1, len(lines) // 5)]][:5])
